@@ -752,8 +752,25 @@ async fn run_model(ctx: &Arc<RunCtx>, allow_unsafe: bool) {
             }
         }
 
-        let r_mem = apply_to_store(&mem, &op).await;
-        let r_redb = apply_to_store(&redb, &op).await;
+        let (r_mem, r_redb) = {
+            use futures::FutureExt;
+            let a = std::panic::AssertUnwindSafe(apply_to_store(&mem, &op)).catch_unwind().await;
+            let b = std::panic::AssertUnwindSafe(apply_to_store(&redb, &op)).catch_unwind().await;
+            match (a, b) {
+                (Ok(a), Ok(b)) => (a, b),
+                (a, _) => {
+                    let p = ctx.panics.lock().unwrap().iter().rev().find(|p| !crate::kernel::runner::is_harness_location(&p.location)).cloned();
+                    let (loc, msg) = p.map(|p| (p.location, p.message)).unwrap_or_default();
+                    let site = crate::kernel::runner::short_location(&loc);
+                    for prop in ["C18", "C19", "C20", "C21"] {
+                        ctx.violation(prop, "no_panic", &site,
+                            format!("{} panicked in the {} store at {loc}: {msg}", op.describe(), if a.is_err() { "in-memory" } else { "redb" }));
+                    }
+                    ctx.end_span();
+                    break;
+                }
+            }
+        };
         let (k_mem, k_redb) = (kind_of_res(&r_mem), kind_of_res(&r_redb));
         ctx.ev("res", k_mem as u64, k_redb as u64);
 
@@ -849,6 +866,18 @@ async fn run_model(ctx: &Arc<RunCtx>, allow_unsafe: bool) {
             };
             (Some(&touched), &touched_hashes)
         };
+        // one abstract model => the two backends answer alike, also where the model is a set
+        // (the order and multiplicity of the accumulated CIDs)
+        if let Op::UpdateMeta(h, _) = &op {
+            let a = mem.get_sampling_metadata(*h).await.ok().flatten().map(|m| m.cids);
+            let b = redb.get_sampling_metadata(*h).await.ok().flatten().map(|m| m.cids);
+            ctx.oracle("C19.backends_agree_on_metadata");
+            if a != b {
+                ctx.violation("C19", "backends_agree_on_metadata", "cid_list",
+                    format!("after {}: get_sampling_metadata({h}) lists {:?} CIDs in memory and {:?} in redb (different order or multiplicity)",
+                        op.describe(), a.as_ref().map(|v| v.len()), b.as_ref().map(|v| v.len())));
+            }
+        }
         for (name, res) in [
             ("in_memory", battery(&mem, &model, hts, hashes, max_h).await),
             ("redb", battery(&redb, &model, hts, hashes, max_h).await),
